@@ -28,14 +28,14 @@ func c10States() []c10Job {
 	reports := func(base string, slots ...int) []string {
 		var ops []string
 		for _, s := range slots {
-			ops = append(ops, fmt.Sprintf("nowoff:%d", s), "rep:5:kDev:now:500")
+			ops = append(ops, fmt.Sprintf("nowoff:%d", s), "rep:0:kDev:now:500")
 		}
 		return ops
 	}
 	edge := reports("", 0, 1, 7, 8, 4030, 4031)
 	// negative (>= 2^63) and near-2^63 readings are records like any other
-	edge = append(edge, "nowoff:15", "rep:5:kDev:now:neg", "nowoff:16", "rep:5:kDev:now:9223372036854775808", "nowoff:17", "rep:5:kDev:now:18446744073709551615")
-	banned := append(reports("", 9), "rep:5:kDev:now:600") // second distinct report: banned slot still has a record
+	edge = append(edge, "nowoff:15", "rep:0:kDev:now:neg", "nowoff:16", "rep:0:kDev:now:9223372036854775808", "nowoff:17", "rep:0:kDev:now:18446744073709551615")
+	banned := append(reports("", 9), "rep:0:kDev:now:600") // second distinct report: banned slot still has a record
 	out = append(out, c10Job{Name: "no reports", Init: []string{"now:0"}})
 	out = append(out, c10Job{Name: "edge slots at offset 0", Init: append(append([]string{}, edge...), banned...)})
 	out = append(out, c10Job{Name: "edge slots at offset 2016", Init: append(append([]string{"rot"}, edge...), banned...)})
